@@ -12,7 +12,7 @@ TARGETS = ["theories/Properties/C05.vo"]
 PROPERTIES_FILE = "theories/Properties/C05.v"
 IMPL = "harness.props.c05_impl"
 TAGGED = True
-SHARD = 1500
+SHARD = 3000
 TABLE_DEPS = ["c05_eq_hash_classes", "c05_vec_hash_family", "c05_list_hash_family",
               "c05_queue_hash_family", "c05_iseq_hash_family", "c05_seq_equals_shape",
               "c05_iseq_eq_shape", "c05_vec_eq_shape", "c05_queue_eq_shape", "c05_map_eq_shape",
@@ -23,7 +23,7 @@ RULE = ("a universe of values built to contain equal values of different represe
         "map / record; empties of every kind; nil; NaN; nested mixes). pairs: ALL ordered pairs of "
         "separately built objects plus every value against itself as one object, observing (= x y), "
         "(= y x), hash equality, (get (hash-map x :found) y) and (contains? (hash-set x) y) both ways. "
-        "triples: quick = seeded sample of 12000 over the universe, thorough = ALL 60^3 over a 60-element core + 50000 sampled over the full universe, observing the six `=`. "
+        "triples: quick = seeded sample of 4000 over the universe, thorough = ALL 60^3 over a 60-element core + 50000 sampled over the full universe, observing the six `=`. "
         "A case is non-trivial when its operands are not all the same description; distinct = distinct JSON.")
 TRUSTED = ["CPython numeric ==/hash: int, float, Fraction, Decimal and bool compare by exact value and equal "
            "numbers hash alike (modelled: exact extended rationals, which __eq__ handles which operand class)",
@@ -41,7 +41,7 @@ ASSUMPTIONS = ["theorems quantify over well-formed values (Model.wf: map keys / 
                "records carry no extension map and no metadata; Decimal NaN/sNaN and complex numbers are "
                "outside the universe; transient collections compare by identity and are outside it"]
 EXHAUSTIVE = {"quick": False, "thorough": False}
-NWORKERS = 3
+NWORKERS = 1   # one 12 s bootstrap; the cases themselves cost ~0.3 ms each
 
 
 # ---- value descriptions -----------------------------------------------------------------
@@ -131,7 +131,7 @@ UNIVERSE = [
 # duplicate an equality class already represented) plus a seeded sample over the full universe
 NON_CORE = {9, 10, 14, 19, 20, 21, 23, 26, 27, 28, 36, 37, 38, 41, 43, 48, 51, 53, 58, 61, 68, 69, 74, 77, 80,
             82, 86}
-QUICK_TRIPLES = 12000
+QUICK_TRIPLES = 4000
 THOROUGH_EXTRA_TRIPLES = 50000
 
 
